@@ -3,7 +3,7 @@
    start with 1 (Some) or 0 (None / error).  The command numbers are read by tools/models.py
    from the CMD comments below. *)
 From Coq Require Import ZArith List Bool.
-From VV Require Import lib.PyInt lib.PyFloat gen.GenTables model.Driver hw.Npu hw.Defuse model.Arena.
+From VV Require Import lib.PyInt lib.PyFloat gen.GenTables model.Driver hw.Npu hw.Defuse model.Arena model.Preserve.
 Import ListNotations.
 Open Scope Z_scope.
 
@@ -204,6 +204,59 @@ Definition run_check_arena (a : list Z) : list Z :=
   | _ => [-1]
   end.
 
+(* ---- C11 ---- *)
+Fixpoint take_tsums (n : nat) (a : list Z) : list tsum * list Z :=
+  match n, a with
+  | S n', sg :: d :: t => let '(r, rest) := take_tsums n' t in ({| ts_sig := sg; ts_data := d |} :: r, rest)
+  | _, _ => ([], a)
+  end.
+Fixpoint take_osums (n : nat) (a : list Z) : list osum * list Z :=
+  match n, a with
+  | S n', sg :: npu :: ni :: t =>
+      let '(ins, t1) := take_n (Z.to_nat ni) t in
+      match t1 with
+      | no :: t2 => let '(outs, t3) := take_n (Z.to_nat no) t2 in
+                    let '(r, rest) := take_osums n' t3 in
+                    ({| os_sig := sg; os_in := ins; os_out := outs; os_npu := negb (npu =? 0) |} :: r, rest)
+      | [] => ([], a)
+      end
+  | _, _ => ([], a)
+  end.
+Definition take_gsum (a : list Z) : gsum * list Z :=
+  match a with
+  | nt :: t =>
+      let '(ts, t1) := take_tsums (Z.to_nat nt) t in
+      match t1 with
+      | nops :: t2 =>
+          let '(ops, t3) := take_osums (Z.to_nat nops) t2 in
+          match t3 with
+          | ni :: t4 => let '(gi, t5) := take_n (Z.to_nat ni) t4 in
+                        match t5 with
+                        | no :: t6 => let '(go, t7) := take_n (Z.to_nat no) t6 in
+                                      ({| g_tens := ts; g_ops := ops; g_in := gi; g_out := go |}, t7)
+                        | [] => ({| g_tens := ts; g_ops := ops; g_in := gi; g_out := [] |}, [])
+                        end
+          | [] => ({| g_tens := ts; g_ops := ops; g_in := []; g_out := [] |}, [])
+          end
+      | [] => ({| g_tens := ts; g_ops := []; g_in := []; g_out := [] |}, [])
+      end
+  | [] => ({| g_tens := []; g_ops := []; g_in := []; g_out := [] |}, [])
+  end.
+(* CMD check_preserved = 8 : src-graph out-graph npsi (t u)* nphi (i j)* -> [ok] *)
+Definition run_check_preserved (a : list Z) : list Z :=
+  let '(src, t1) := take_gsum a in
+  let '(out, t2) := take_gsum t1 in
+  match t2 with
+  | npsi :: t3 =>
+      let '(psi, t4) := take_pairs (Z.to_nat npsi) t3 in
+      match t4 with
+      | nphi :: t5 => let '(phi, _) := take_pairs (Z.to_nat nphi) t5 in
+                      [if check_preserved src out psi phi then 1 else 0]
+      | [] => [-1]
+      end
+  | [] => [-1]
+  end.
+
 Definition run (cmd : Z) (a : list Z) : list Z :=
   if cmd =? 1 then run_driver_payload a
   else if cmd =? 2 then run_driver_parse a
@@ -212,4 +265,5 @@ Definition run (cmd : Z) (a : list Z) : list Z :=
   else if cmd =? 5 then run_footprints a
   else if cmd =? 6 then run_check_defuse a
   else if cmd =? 7 then run_check_arena a
+  else if cmd =? 8 then run_check_preserved a
   else [-1].
